@@ -635,6 +635,15 @@ class Comparer:
                 tail = recs[-1].split(" # ")[3].split(" ")
                 if int(tail[2]) > 0:
                     st["with_rewind"] = st.get("with_rewind", 0) + 1
+                # a window that opens is open at the end of that step (never rewind + restore in one segment)
+                po = pc = 0
+                for r in recs:
+                    t = r.split(" # ")[3].split(" ")
+                    o, c_ = int(t[2]), int(t[3])
+                    if o > po and c_ > pc:
+                        st["rewind_and_restore_in_one_step"] = st.get("rewind_and_restore_in_one_step", 0) + 1
+                    po, pc = o, c_
+                st.setdefault("rewind_and_restore_in_one_step", 0)
             self.shapes.add((scn[0], tuple(shape)))
             if len(self.samples) < 4 and len(letters) > 5 and st["schedules"] % 700 == 1:
                 self.samples.append({"scenario": scn[0], "paused": paused, "letters": " ".join(letters),
